@@ -2,6 +2,7 @@ package props
 
 import (
 	"fmt"
+	"github.com/vedadiyan/genql"
 	"sort"
 	"strings"
 
@@ -207,7 +208,7 @@ func (p *c02) Init(tier string) {
 	}
 }
 
-func (p *c02) NumCases() int { return len(p.cases) + 1 }
+func (p *c02) NumCases() int { return len(p.cases) + 2 }
 
 // runManyColumns: 1200 queries, each naming a column no earlier query of this process has named
 // (the selector cache is process-wide and only grows): every one must project its own column.
@@ -237,6 +238,9 @@ func (p *c02) sqlOf(c *c02case) string {
 }
 
 func (p *c02) Describe(i int) any {
+	if i == len(p.cases)+1 {
+		return map[string]any{"kind": "explicit statements: `*` over dual with CTEs in scope (the key set is the document's, whatever the select list evaluated before), literals under PostgresEscapingDialect, mixed-depth tables"}
+	}
 	if i == len(p.cases) {
 		return map[string]any{"kind": "1200 queries, each projecting a column name never used before in this process"}
 	}
@@ -279,8 +283,50 @@ func itemKey(it Item) string {
 	return ""
 }
 
+// runExplicit: statements whose expected result is written out.
+func (p *c02) runExplicit(r *core.CaseResult) {
+	doc := func() map[string]any {
+		return map[string]any{"t": []any{map[string]any{"id": 0.0, "a": 1.0}, map[string]any{"id": 1.0, "a": 2.0}}, "k": "v"}
+	}
+	docStar := func(extra map[string]any) []any {
+		row := doc()
+		for k, v := range extra {
+			row[k] = v
+		}
+		return []any{row}
+	}
+	cases := []struct {
+		sql  string
+		opts []genql.QueryOption
+		want []any
+	}{
+		// `*` over dual: exactly the document's keys, whether or not a CTE in scope has been evaluated
+		{"WITH c AS (SELECT a FROM t) SELECT * FROM dual", nil, docStar(nil)},
+		{"WITH c AS (SELECT a FROM t) SELECT (SELECT a FROM c LIMIT 1) AS q, * FROM dual", nil, docStar(map[string]any{"q": []any{map[string]any{"a": 1.0}}})},
+		{"WITH c AS (SELECT a FROM t) SELECT *, (SELECT COUNT(*) AS n FROM c) AS q FROM dual", nil, docStar(map[string]any{"q": []any{map[string]any{"n": 2.0}}})},
+		{"WITH c AS (SELECT a FROM t), d AS (SELECT a FROM c WHERE a > 1) SELECT (SELECT a FROM d) AS q, * FROM dual", nil, docStar(map[string]any{"q": []any{map[string]any{"a": 2.0}}})},
+		// literals under the dialect option: a backslash before a character that needs no escaping
+		{"SELECT id, 'caf\\é' AS v, CASE WHEN a > 1 THEN 'th\\é' ELSE 'x\\'' END AS w FROM t", []genql.QueryOption{genql.PostgresEscapingDialect()},
+			[]any{map[string]any{"id": 0.0, "v": "café", "w": "x'"}, map[string]any{"id": 1.0, "v": "café", "w": "thé"}}},
+		{"SELECT id, 'caf\\é' AS v FROM t WHERE a > 1", nil, []any{map[string]any{"id": 1.0, "v": "café"}}},
+	}
+	for _, c := range cases {
+		o := gq.Run(doc(), c.sql, c.opts...)
+		r.Execs++
+		if got, want := outcome(o), gq.Render(c.want); got != want {
+			r.Fail("C02|explicit|keys-or-values", fmt.Sprintf("%s returned %s (%v), want %s", c.sql, got, o.Err, want), map[string]any{"sql": c.sql, "doc": doc()})
+		}
+	}
+	r.Nontrivial = true
+}
+
 func (p *c02) RunCase(i int) *core.CaseResult {
 	defer withNoise()()
+	if i == len(p.cases)+1 {
+		r := &core.CaseResult{}
+		p.runExplicit(r)
+		return r
+	}
 	if i == len(p.cases) {
 		r := &core.CaseResult{}
 		p.runManyColumns(r)
